@@ -79,6 +79,13 @@ def oracle(case):
                 prows.append(rest[k:k + case["wrap"]])
     spec = lastext.simple_spec(curves, prows, wrap="YES" if case.get("wrap") else "NO", null=case["null_text"])
     spec["sections"][-1]["ncols"] = c
+    if case.get("later_null"):
+        # an item called NULL in a later header section is just an item: only ~Well's NULL says what the marker is
+        kind, val = case["later_null"]
+        title = "~Parameter" if kind == "P" else "~Tool Settings"
+        spec["sections"].insert(len(spec["sections"]) - 1, lastext.section(kind, title, [
+            lastext.item("BHT", "DEGC", "35.5", "temp"), lastext.item("NULL", "", val, "not the marker")]))
+        out.cls("null-item-in-later-section")
     from vlib import strategies as S_
     S_.apply_scaffold(spec, case.get("scaffold"))
     text = lastext.render(spec)
@@ -176,6 +183,11 @@ def read_cases(draw):
     from vlib import strategies as S_
     case["scaffold"] = draw(S_.scaffold())
     case["mnemonic_case"] = draw(st.sampled_from(["upper", "upper", "lower", "preserve"]))
+    if draw(st.integers(0, 3)) == 0:
+        # its value is one that occurs in the data (and differs from the real NULL)
+        others = sorted({t for rw in rows for j, t in enumerate(rw) if j != textcol and float(t) != nullx})
+        if others:
+            case["later_null"] = [draw(st.sampled_from(["P", "X"])), draw(st.sampled_from(others))]
     return case
 
 
@@ -210,6 +222,8 @@ def oracle_write(case):
         out.fail("build-raises|" + las.bucket, str(las))
         return out
     opts = dict(case["opts"])
+    if "column_fmt" in opts:
+        opts["column_fmt"] = {int(k): v for k, v in opts["column_fmt"].items()}
     text = attempt(build.write_text, las, **opts)
     nullv = build.val(nullspec)
     out.cls("write", "null=%r" % (nullv,), "wrap" if opts.get("wrap") else "nowrap", "v%s" % opts.get("version"))
@@ -257,7 +271,8 @@ def oracle_write(case):
                 except (TypeError, ValueError):
                     out.fail("numeric-cell-not-float|write|" + engine, "cell (%d,%d)=%s came back as %r\n%s" % (i, j, cell, list(back.curves)[j].data[i], text))
                     continue
-                prints_as_null = (not math.isnan(x)) and not math.isinf(x) and float(fmt % x) == float(nullv)
+                fj = opts.get("column_fmt", {}).get(j, fmt)
+                prints_as_null = (not math.isnan(x)) and not math.isinf(x) and float(fj % x) == float(nullv)
                 want_nan = j != 0 and (math.isnan(x) or prints_as_null)
                 if want_nan and not math.isnan(got):
                     out.fail("nan-lost-on-roundtrip|" + engine, "cell (%d,%d)=%s came back as %r (NULL %r)\n%s" % (i, j, cell, got, nullv, text))
@@ -296,7 +311,9 @@ def write_cases(draw):
                     col.append(fenc(draw(st.sampled_from([1.0, -2.5, 1000.125, 0.0, 7e5]))))
         cols.append(col)
     opts = dict(version=draw(st.sampled_from([1.2, 2])), wrap=draw(st.booleans()),
-                fmt=draw(st.sampled_from(["%.5f", "%.3f", "%.10g", "%.2f"])))
+                fmt=draw(st.sampled_from(["%.5f", "%.3f", "%.10g", "%.2f", "%+.3f", "%.4E", "%.6G", "%.2F", "% .3f"])))
+    if draw(st.integers(0, 4)) == 0 and c >= 2:
+        opts["column_fmt"] = {str(draw(st.integers(1, c - 1))): draw(st.sampled_from(["%+.2f", "%.3E", "%.1f"]))}
     case = dict(side="write", nullspec=nullspec, cols=cols, opts=opts)
     if draw(st.integers(0, 3)) == 0:
         case["textcol"] = [draw(st.sampled_from(["SAND", "LIME", "x1", "N/A"])) for _ in range(r)]
